@@ -454,6 +454,14 @@ fn build_ica<F: Fl, const G: u8>(p: &P) -> FastIca<F> {
 fn build_ica_params<F: Fl, const G: u8>(p: &P) -> FastIcaValidParams<F> {
     ica_valid::<F>(G, Some((p.seed % 1000) as usize + 5), if G == 3 { Some(2) } else { None })
 }
+/// boundary values of the optional fields: seed 0 and one component are legal values that a
+/// "0 means unset" style encoding would lose
+fn build_ica_params_seed0<F: Fl>(_p: &P) -> FastIcaValidParams<F> {
+    ica_valid::<F>(0, Some(0), Some(1))
+}
+fn build_ica_params_seed_max<F: Fl>(_p: &P) -> FastIcaValidParams<F> {
+    ica_valid::<F>(2, Some(usize::MAX), None)
+}
 fn fp_gfunc_bits(g: &GFunc, f: &mut Fingerprint) {
     match g {
         GFunc::Logcosh(a) => {
@@ -1358,6 +1366,8 @@ pub fn register(r: &mut Registry) {
     r.model::<FastIca<f64>>("ica_model_exp", ICA, &["FastIca"], None, build_ica::<f64, 2>, fp_ica::<f64>, Some(|a, b| a == b));
     r.model::<FastIca<f32>>("ica_model_cube_f32", ICA, &["FastIca"], claim, build_ica::<f32, 3>, fp_ica::<f32>, Some(|a, b| a == b));
     r.model::<FastIcaValidParams<f64>>("ica_valid_params_logcosh", ICA, &["FastIcaValidParams", "GFunc"], claim, build_ica_params::<f64, 0>, fp_ica_params::<f64>, Some(|a, b| a == b));
+    r.model::<FastIcaValidParams<f64>>("ica_valid_params_seed0", ICA, &["FastIcaValidParams", "GFunc"], None, build_ica_params_seed0::<f64>, fp_ica_params::<f64>, Some(|a, b| a == b));
+    r.model::<FastIcaValidParams<f64>>("ica_valid_params_seed_max", ICA, &["FastIcaValidParams", "GFunc"], None, build_ica_params_seed_max::<f64>, fp_ica_params::<f64>, Some(|a, b| a == b));
     r.model::<FastIcaValidParams<f64>>("ica_valid_params_logcosh_bound", ICA, &["FastIcaValidParams", "GFunc"], None, build_ica_params::<f64, 1>, fp_ica_params::<f64>, Some(|a, b| a == b));
     r.model::<FastIcaValidParams<f64>>("ica_valid_params_exp", ICA, &["FastIcaValidParams", "GFunc"], None, build_ica_params::<f64, 2>, fp_ica_params::<f64>, Some(|a, b| a == b));
     r.model::<FastIcaValidParams<f32>>("ica_valid_params_cube_f32", ICA, &["FastIcaValidParams", "GFunc"], None, build_ica_params::<f32, 3>, fp_ica_params::<f32>, Some(|a, b| a == b));
